@@ -1,4 +1,303 @@
 import FqModel.Proto
-/-! driver for C02 (stub — replaced by the property's own driver) -/
-open FqModel.Proto
-def main : IO Unit := run (fun _ _ => "BADOP driver-stub")
+import FqModel.Bits
+import FqModel.Scalar
+import FqModel.C02Call
+/-! driver for C02
+
+  `rd <L> <hex> <pos> <be|le> <Method> <args…>` TAB `<outcome> <pos'> [c<start>:<len>|c-]`
+     (format: see harness/cmd/c02/main.go)
+
+  verdict = the property predicate evaluated on the implementation's observation (`propVerdict`,
+  written against the mathematical definitions — `ofBitsBE` of the slice, two's complement,
+  Σ byte·256^i, `val16/32/64/80` + one rounding, Σ payload·128^i … — not against the model's
+  transliterations), then model = implementation (`obsEq`).
+-/
+open FqModel FqModel.Scalar FqModel.C02 FqModel.Proto
+
+/-! ### printing / parsing observations -/
+
+def hexNat (digits n : Nat) : String :=
+  String.ofList ((List.range digits).reverse.map fun i => hexDigit (n / 16 ^ i % 16))
+
+def hexOfNats (bs : List Nat) : String :=
+  if bs.isEmpty then "-" else String.ofList (bs.flatMap fun b => [hexDigit (b / 16 % 16), hexDigit (b % 16)])
+
+def natOfHex (s : String) : Option Nat :=
+  s.toList.foldlM (fun a c => (hexVal c).map (16 * a + ·)) 0
+
+def showVal : Val → String
+  | .u n => s!"u:{n}"
+  | .s i => s!"s:{i}"
+  | .big i => s!"big:{i}"
+  | .f b => s!"f:{hexNat 16 b}"
+  | .b v => if v then "b:1" else "b:0"
+  | .t bs => s!"t:{hexOfNats bs}"
+  | .tUnmodelled => "t:?"
+  | .bits n bs => s!"bits:{n}:{hexOfNats bs}"
+
+def showErrK : ErrK → String
+  | .eof => "eof"
+  | .other => "other"
+
+def showPanic (w : String) : String := if w == "nilderef" || w == "makeslice" then w else "other"
+
+def showRes : Res Val → String
+  | .ok v p => s!"{showVal v} {p}"
+  | .err e p => s!"err:{showErrK e} {p}"
+  | .ioerr e p => s!"ioerr:{showErrK e} {p}"
+  | .panic w p => s!"panic:{showPanic w} {p}"
+
+def showObs (o : Obs) : String :=
+  showRes o.res ++ (match o.field with
+    | none => ""
+    | some none => " c-"
+    | some (some (a, l)) => s!" c{a}:{l}")
+
+def parseErrK (s : String) : Option ErrK :=
+  if s == "eof" then some .eof else if s == "other" then some .other else none
+
+def parseVal (s : String) : Option Val :=
+  match s.splitOn ":" with
+  | ["u", v] => v.toNat?.map .u
+  | ["s", v] => v.toInt?.map .s
+  | ["big", v] => v.toInt?.map .big
+  | ["f", v] => if v.length == 16 then (natOfHex v).map .f else none
+  | ["b", "0"] => some (.b false)
+  | ["b", "1"] => some (.b true)
+  | ["t", v] => (bytesOfHex v).map fun bs => .t (bs.map (·.toNat))
+  | ["bits", n, v] => do
+    let n ← n.toNat?
+    let bs ← bytesOfHex v
+    pure (.bits n (bs.map (·.toNat)))
+  | _ => none
+
+def parseRes (outcome : String) (pos : Nat) : Option (Res Val) :=
+  match outcome.splitOn ":" with
+  | ["err", k] => (parseErrK k).map (.err · pos)
+  | ["ioerr", k] => (parseErrK k).map (.ioerr · pos)
+  | ["panic", w] => some (.panic w pos)
+  | _ => (parseVal outcome).map (.ok · pos)
+
+def parseField (s : String) : Option (Option (Nat × Nat)) :=
+  if s == "c-" then some none
+  else if s.startsWith "c" then
+    match (s.drop 1).toString.splitOn ":" with
+    | [a, l] => do
+      let a ← a.toNat?
+      let l ← l.toNat?
+      pure (some (a, l))
+    | _ => none
+  else none
+
+def parseObs (obs : String) : Option Obs :=
+  match words obs with
+  | [o, p] => do
+    let p ← p.toNat?
+    let r ← parseRes o p
+    pure ⟨r, none⟩
+  | [o, p, c] => do
+    let p ← p.toNat?
+    let r ← parseRes o p
+    let f ← parseField c
+    pure ⟨r, some f⟩
+  | _ => none
+
+def valEq : Val → Val → Bool
+  | .f a, .f b => a == b || (isNaN64 a && isNaN64 b)   -- NaN payloads are not compared
+  | .tUnmodelled, .t _ => true
+  | a, b => a == b
+
+def resEq : Res Val → Res Val → Bool
+  | .ok a p, .ok b q => valEq a b && p == q
+  | .err a p, .err b q => a == b && p == q
+  | .ioerr a p, .ioerr b q => a == b && p == q
+  | .panic a p, .panic b q => showPanic a == showPanic b && p == q
+  | _, _ => false
+
+def obsEq (m i : Obs) : Bool := resEq m.res i.res && m.field == i.field
+
+def parseArg (s : String) : Option ArgVal :=
+  if s == "be" then some (.endian .be)
+  else if s == "le" then some (.endian .le)
+  else if s == "utf8" then some (.enc .utf8bom)
+  else if s == "utf16" then some (.enc .utf16bom)
+  else if s == "utf16le" then some (.enc .utf16le)
+  else if s == "utf16be" then some (.enc .utf16be)
+  else s.toInt?.map .int
+
+/-! ### the property predicate -/
+
+/-- what the property says about one call: is the read satisfiable, how many bits does it consume,
+    and (where the property defines it) the value.  `none` value: no claim beyond the model's. -/
+structure Expect where
+  sat : Bool
+  consumed : Nat := 0
+  value : Option Val := none
+  /-- a second acceptable value, tagged with the known-finding key it stands for -/
+  knownAlt : Option (Val × String) := none
+
+/-- exact value comparison of two binary64 patterns / of a pattern with an exact value -/
+def f64Is (bits : Nat) (v : IEEEVal) : Bool :=
+  match v with
+  | .nan => isNaN64 bits
+  | v => (val64 bits).same v
+
+/-- LEB128 by the definition: payload bytes up to the first byte without continuation bit -/
+def lebPayloads (bs : Bits) : Nat → Nat → Option (List Nat)
+  | 0, _ => none
+  | fuel+1, pos =>
+    if pos + 8 ≤ bs.length then
+      let b := ofBitsBE (slice bs pos 8)
+      if b ≥ 128 then (lebPayloads bs fuel (pos + 8)).map ((b - 128) :: ·) else some [b]
+    else none
+
+def lebValue (ps : List Nat) : Nat := ps.foldr (fun p acc => p + 128 * acc) 0
+
+def expectOf (bs : Bits) (pos : Nat) (fn : CoreFn) (av : List ArgVal) : Option Expect :=
+  let L := bs.length
+  let fits (n : Nat) : Bool := n == 0 || pos + n ≤ L
+  match fn, av with
+  | .tryUEndian, [.int n, .endian e] =>
+    if n < 0 ∨ n > 64 then some { sat := false } else
+    let n := n.toNat
+    if !fits n then some { sat := false } else
+    let sl := slice bs pos n
+    let v : Option Val := if e == .be || n ≤ 8 then some (.u (ofBitsBE sl))
+      else if n % 8 == 0 then some (.u (leValue sl)) else none
+    some { sat := true, consumed := n, value := v }
+  | .trySEndian, [.int n, .endian e] =>
+    if n < 1 ∨ n > 64 then some { sat := false } else
+    let n := n.toNat
+    if !fits n then some { sat := false } else
+    let sl := slice bs pos n
+    let v : Option Val := if e == .be || n ≤ 8 then some (.s (signedOf n (ofBitsBE sl)))
+      else if n % 8 == 0 then some (.s (signedOf n (leValue sl))) else none
+    some { sat := true, consumed := n, value := v }
+  | .tryBigIntEndianSign, [.int n, .endian e, .int sg] =>
+    if n < 0 then some { sat := false } else
+    let n := n.toNat
+    if !fits n then some { sat := false } else
+    let sl := slice bs pos n
+    let u : Option Nat := if e == .be || n ≤ 8 then some (ofBitsBE sl) else if n % 8 == 0 then some (leValue sl) else none
+    some { sat := true, consumed := n, value := u.map fun u => .big (if sg ≠ 0 then signedOf n u else u) }
+  | .tryFEndian, [.int n, .endian e] =>
+    if n ≠ 16 ∧ n ≠ 32 ∧ n ≠ 64 ∧ n ≠ 80 then some { sat := false } else
+    let n := n.toNat
+    if !fits n then some { sat := false } else
+    let sl := slice bs pos n
+    let b := if e == .le then reverseByteOrder sl else sl
+    let x := ofBitsBE b
+    if n = 80 then
+      let se := ofBitsBE (b.take 16)
+      let m := ofBitsBE (b.drop 16)
+      some { sat := true, consumed := n, value := some (.f (f80to64Spec se m)) }
+    else
+      let v := if n = 16 then val16 x else if n = 32 then val32 x else val64 x
+      some { sat := true, consumed := n, value := some (.f (encode64 v)) }
+  | .tryFPEndian, [.int n, .int f, .endian e] =>
+    if n < 0 ∨ n > 64 ∨ f < 0 then some { sat := false } else
+    let n := n.toNat
+    if !fits n then some { sat := false } else
+    let sl := slice bs pos n
+    let u : Option Nat := if e == .be || n ≤ 8 then some (ofBitsBE sl) else if n % 8 == 0 then some (leValue sl) else none
+    some { sat := true, consumed := n,
+           value := if f < 64 then u.map fun u => .f (roundF64 false u (-f)) else none }
+  | .tryBool, [] =>
+    if !fits 1 then some { sat := false } else some { sat := true, consumed := 1, value := some (.b (bs.getD pos false)) }
+  | .tryUnary, [.int ov] =>
+    match unaryRun ov.toNat (bs.drop pos) with
+    | none => some { sat := false }
+    | some k => some { sat := true, consumed := k + 1, value := some (.u k) }
+  | .tryULEB128, [] =>
+    match lebPayloads bs 10 pos with
+    | none => some { sat := false }
+    | some ps =>
+      let v := lebValue ps
+      -- the reader's range is 63 bits (read.go:265); documented in lib/props/C02.json
+      if v < 2 ^ 63 then some { sat := true, consumed := 8 * ps.length, value := some (.u v) } else some { sat := false }
+  | .trySLEB128, [] =>
+    match lebPayloads bs 10 pos with
+    | none => some { sat := false }
+    | some ps =>
+      let v := signedOf (7 * ps.length) (lebValue ps)
+      if -(2 ^ 63 : Int) ≤ v ∧ v < (2 ^ 63 : Int) then some { sat := true, consumed := 8 * ps.length, value := some (.s v) }
+      else some { sat := false }
+  | _, _ => none
+
+inductive PV | holds | fail (why : String) | known (key why : String)
+
+def propVerdict (bs : Bits) (pos : Nat) (layer : Layer) (fn : CoreFn) (av : List ArgVal) (impl : Obs) : PV :=
+  let isField := layer != .try_ && layer != .plain
+  match impl.res with
+  | .panic w _ =>
+    -- a Go run-time fault is never an acceptable way to fail
+    .fail s!"run-time panic {w}"
+  | .ok v p =>
+    match expectOf bs pos fn av with
+    | none =>
+      -- text readers: whole bytes inside the input
+      if p < pos ∨ p > bs.length ∨ (p - pos) % 8 ≠ 0 then .fail s!"text reader consumed [{pos},{p})"
+      else if isField && impl.field != some (some (pos, p - pos)) then .fail "field range is not the bits consumed"
+      else .holds
+    | some ex =>
+      if !ex.sat then .fail "a value was returned for a read that cannot be satisfied"
+      else if p ≠ pos + ex.consumed then .fail s!"position advanced by {(p : Int) - pos}, bits consumed {ex.consumed}"
+      else if isField && impl.field != some (some (pos, ex.consumed)) then .fail "field range is not the bits consumed"
+      else match ex.value with
+        | none => .holds
+        | some want =>
+          if valEq want v then .holds
+          else match ex.knownAlt with
+            | some (alt, key) => if valEq alt v then .known key s!"got {showVal v} want {showVal want}" else .fail s!"value {showVal v}, mathematical value {showVal want}"
+            | none => .fail s!"value {showVal v}, mathematical value {showVal want}"
+  | _ =>
+    -- err / ioerr
+    if isField && impl.field != some none then .fail "a field was added by a failed read"
+    else match expectOf bs pos fn av with
+      | some ex => if ex.sat then .fail "error on a read that can be satisfied" else .holds
+      | none => .holds
+
+/-! ### one line -/
+
+def namesOf (s : String) : List Nat := s.toList.map Char.toNat
+
+def rawCall (bs : Bits) (pos : Nat) (method : String) (av : List ArgVal) : Option Obs :=
+  match method, av with
+  | "TryUintBits", [.int n] =>
+    some ⟨if n < 0 then .err .other pos else (tryUintBits bs pos n.toNat).map .u, none⟩
+  | "TryBits", [.int n] =>
+    some ⟨if n < 0 then .err .other pos else (tryBits bs pos n.toNat).map fun b => .bits n.toNat (byteVals b), none⟩
+  | _, _ => none
+
+def stepC02 (op obs : String) : String :=
+  match words op with
+  | "rd" :: sL :: hex :: spos :: sEnd :: method :: args =>
+    match sL.toNat?, bytesOfHex hex, spos.toNat?, parseArg sEnd, args.mapM parseArg with
+    | some L, some bytes, some pos, some (.endian cur), some av =>
+      let all := bytesToBits bytes
+      if L > all.length then "BADOP L-beyond-hex" else
+      let bs := all.take L
+      match parseObs obs with
+      | none => s!"BADOP obs {obs}"
+      | some impl =>
+        match rawCall bs pos method av with
+        | some m => if obsEq m impl then "OK" else s!"DIVERGE model={showObs m}"
+        | none =>
+          match parseName (namesOf method) with
+          | none => "BADOP unknown-method"
+          | some (layer, fn, argExprs) =>
+            match argExprs.mapM (resolveArg cur av) with
+            | none => "BADOP args"
+            | some rav =>
+              match call bs pos cur (namesOf method) av with
+              | none => "BADOP not-modelled"
+              | some m =>
+                let div := if obsEq m impl then "" else s!" ;DIVERGE model={showObs m}"
+                match propVerdict bs pos layer fn rav impl with
+                | .fail why => s!"PROPFAIL {why}{div}"
+                | .known key why => s!"KNOWN {key} {why}{div}"
+                | .holds => if div.isEmpty then "OK" else s!"DIVERGE model={showObs m}"
+    | _, _, _, _, _ => "BADOP parse"
+  | _ => "BADOP op"
+
+def main : IO Unit := run stepC02
